@@ -430,6 +430,56 @@ class Explorer(object):
         return len(seen)
 
 
+def check_constructor_aliasing(ex, init):
+    """A vector owns its storage: built from a caller's list, or from another vector of its class, it neither follows
+    later edits of that source nor changes it when it is edited itself (every event of the alphabet, each from a
+    fresh pair).  Reported with the clauses source_follows / source_changed / copy_follows."""
+    acc = ex.acc
+    cls = ex.cls
+    n = 0
+    for src_kind in ('list', 'vector'):
+        for ei, (evname, fn) in enumerate(ex.events):
+            try:
+                src = list(init) if src_kind == 'list' else cls(list(init))
+                v = cls(src)
+            except Exception:  # noqa
+                return n
+            model = list(init)
+            n += 1
+            acc.counters['transitions'] = acc.counters.get('transitions', 0) + 1
+            # (1) edit the vector built from the source: the source must not change
+            try:
+                fn(v, ex.items)
+            except Exception:  # noqa - refused edit
+                pass
+            src_items = src if src_kind == 'list' else list(src._items)
+            if not ex.same_items(src_items, model):
+                ex.viol('source_changed', evname, 'editing a vector built from a %s changed that %s'
+                        % (src_kind, src_kind), init, [], evname)
+                break
+            if src_kind == 'vector':
+                ex.check_state(src, model, init, [])
+            # (2) edit the source: the vector built from it must not follow
+            try:
+                src2 = list(init) if src_kind == 'list' else cls(list(init))
+                v2 = cls(src2)
+                if src_kind == 'list':
+                    if model:
+                        del src2[0]
+                    src2.append(ex.items[0])
+                else:
+                    fn(src2, ex.items)
+            except Exception:  # noqa
+                continue
+            if not ex.same_items(list(v2._items), model):
+                ex.viol('copy_follows' if src_kind == 'vector' else 'source_follows', evname,
+                        'a vector built from a %s changed when that %s was edited afterwards' % (src_kind, src_kind),
+                        init, [], evname)
+                break
+            ex.check_state(v2, model, init, [])
+    return n
+
+
 def initial_states(cls, items, param):
     """Small initial states: empty (if allowed), minimum size, 2 items, one harvested vector."""
     inits = []
@@ -490,6 +540,7 @@ def _worker(args):
             n = 0
             for init in initial_states(cls, items, param):
                 n += ex.bfs(init, depth)
+                acc.count('constructor_aliasing_histories', check_constructor_aliasing(ex, init))
             acc.count('classes_small')
             acc.sample({'cls': cls.__name__, 'items': [repr(x)[:60] for x in items], 'events': len(ex.events),
                         'depth': depth, 'states': n}, 1)
@@ -526,7 +577,7 @@ def run(ctx):
         'four toy subclasses of Vector/Opaque/VectorParsable/VectorString with tight bounds (defined in /verif) '
         'run the real ArrayBase code so both bounds are reachable within the depth bound',
     ]
-    return ctx.finish(rule='BFS over event sequences (about 60 concrete events: append, insert x5 positions, extend, '
+    return ctx.finish(rule='constructor aliasing (vector built from a list / from a vector, every event on either side); BFS over event sequences (about 60 concrete events: append, insert x5 positions, extend, '
                            '+=, pop, remove, del int/slice, item and slice assignment, reverse, clear) of depth <= %d '
                            'from 5-7 small initial states per class, depth <= %d for tight-bound toy classes, depth '
                            '1-3 from at-maximum and one-below-maximum states; states merged by (items, hidden size '
@@ -546,7 +597,9 @@ def replay(ctx, w):
                     ex = Explorer(cls, acc, light=len(init) > 2000)
                     names = [e[0] for e in ex.events]
                     hist = [names.index(h) for h in w['history']]
-                    if w.get('event'):
+                    if w.get('clause') in ('source_changed', 'source_follows', 'copy_follows'):
+                        check_constructor_aliasing(ex, init)
+                    elif w.get('event'):
                         ex.step(init, hist[:-1], hist[-1])
                     else:
                         v, L = ex.build(init, hist)
